@@ -123,19 +123,19 @@ pub(crate) fn add_optional_map<W, R, T>(
 pub(crate) fn add_optional_map_or<W, R, T>(
     scope: &mut RootCompilationScope<W, R, T>,
 ) -> Result<(), CompilationError> {
-    let ([t], params) = scope.generics_from_names(["T"]);
+    let ([t, u], params) = scope.generics_from_names(["T", "U"]);
     scope.add_func(
         "map_or",
         XFuncSpec::new(
             &[
                 &XOptionalType::xtype(t.clone()),
                 &Arc::new(XCallable(XCallableSpec {
-                    param_types: vec![t.clone()],
-                    return_type: t.clone(),
+                    param_types: vec![t],
+                    return_type: u.clone(),
                 })),
-                &t,
+                &u,
             ],
-            t.clone(),
+            u.clone(),
         )
         .generic(params),
         XStaticFunction::from_native(|args, ns, tca, rt| {
